@@ -246,18 +246,26 @@ pub fn check_stdfs_twin_prog(prog: &[Op]) -> CaseResult {
     static SEQ: AtomicU64 = AtomicU64::new(0);
     let base = crate::sandbox::root();
     type Obs = Vec<(Out, Vec<(String, String)>)>;
-    let run = |wrapped: bool| -> (Obs, Option<String>) {
+    // way 0: the trait implementation on the Stdfs value; 1: through Vfs::Stdfs; 2: the associated functions
+    // Stdfs::<name> (through the delegating adapter `StdfsAssoc`)
+    let run = |way: u8| -> (Obs, Option<String>) {
+        let wrapped = way == 1;
         let root = format!("{}/tw{}", base.to_str().unwrap(), SEQ.fetch_add(1, Ordering::Relaxed));
         let _ = std::fs::create_dir_all(&root);
         let sub = |o: &Op| -> Op { serde_json::from_str(&serde_json::to_string(o).unwrap().replace('@', &root)).unwrap() };
         let direct = Stdfs::new();
         let vfs = Vfs::stdfs();
+        let assoc = crate::stdassoc::StdfsAssoc;
         for o in scenario_at("@") {
             let o = sub(&o);
             if matches!(o, Op::SetCwd(_) | Op::Chown(..)) {
                 continue;
             }
-            let _ = if wrapped { apply(&vfs, &o) } else { apply(&direct, &o) };
+            let _ = match way {
+                1 => apply(&vfs, &o),
+                2 => apply(&assoc, &o),
+                _ => apply(&direct, &o),
+            };
         }
         let mut handles = Handles::default();
         let mut obs: Obs = vec![];
@@ -265,9 +273,13 @@ pub fn check_stdfs_twin_prog(prog: &[Op]) -> CaseResult {
         let st = |s: String| s.replace(&root, "@");
         for op_t in prog {
             let op = sub(op_t);
-            let out = if wrapped { apply_h(&vfs, &op, &mut handles) } else { apply_h(&direct, &op, &mut handles) };
+            let out = match way {
+                1 => apply_h(&vfs, &op, &mut handles),
+                2 => apply_h(&assoc, &op, &mut handles),
+                _ => apply_h(&direct, &op, &mut handles),
+            };
             // the trait implementation on the unit struct answers what the associated function answers
-            if !wrapped && acc.is_none() {
+            if way == 0 && acc.is_none() {
                 let assoc: Option<Out> = match &op {
                     Op::Exists(p) => Some(Out::Bool(Stdfs::exists(p))),
                     Op::IsDir(p) => Some(Out::Bool(Stdfs::is_dir(p))),
@@ -310,7 +322,8 @@ pub fn check_stdfs_twin_prog(prog: &[Op]) -> CaseResult {
                     }
                     Out::Entry(e)
                 },
-                Out::Err(_) => Out::Err(String::new()),
+                // (the stage at which a builder call fails is part of what the caller sees)
+                Out::Err(e) => Out::Err(if e.starts_with("build:") { "at-builder-creation".to_string() } else { String::new() }),
                 x => x,
             };
             let tree: Vec<(String, String)> = t.nodes.iter().map(|(k, n)| (k.clone(), match n {
@@ -324,11 +337,20 @@ pub fn check_stdfs_twin_prog(prog: &[Op]) -> CaseResult {
         let _ = std::fs::remove_dir_all(&root);
         (obs, acc)
     };
-    let (a, acc0) = run(false);
+    let (a, acc0) = run(0);
     if let Some(d) = acc0 {
         return Err(Failure::new("trait-impl-differs-from-associated-function|stdfs", d));
     }
-    let (b, acc) = run(true);
+    let (z, _) = run(2);
+    for (i, op_t) in prog.iter().enumerate() {
+        if a[i].0 != z[i].0 {
+            return Err(Failure::new(format!("{}|trait-impl-result-differs-from-associated-function|stdfs", op_t.name()), format!("step {} of {:?}: method on the Stdfs value {:?}, Stdfs::{} {:?}", i + 1, prog, a[i].0, op_t.name(), z[i].0)));
+        }
+        if a[i].1 != z[i].1 {
+            return Err(Failure::new(format!("{}|trait-impl-effect-differs-from-associated-function|stdfs", op_t.name()), format!("step {} of {:?}: trees differ {:?} vs {:?}", i + 1, prog, a[i].1, z[i].1)));
+        }
+    }
+    let (b, acc) = run(1);
     if let Some(d) = acc {
         return Err(Failure::new("entry|accessor-differs-through-VfsEntry|stdfs", d));
     }
@@ -370,7 +392,7 @@ fn scenario_inner() -> Vec<Op> {
 }
 
 pub fn run(c: &Ctx) {
-    c.set_rule("(a) matrix: from a fixed mixed scenario (dirs, files with different modes/owners/bytes, link to file, link to dir, dangling link, cwd below root) every call form of the finite alphabet (every trait method incl. builder variants, builders executed after a cwd change, and handles) on every path of the scenario (absolute and cwd-relative; ordered pairs for copy/move/symlink) is executed on a plain Memfs, through Vfs::Memfs(..) and through Memfs::upcast(): identical result (value / error kind) and identical dump-derived tree after every call; every Entry accessor (path, alt, rel, *_buf, file_name, follow(true/false/twice), following, is_*, mode, upcast, clone) of the inner MemfsEntry vs the VfsEntry. (b) the same matrix on the real-filesystem backend: the Stdfs unit struct (trait impl) vs Vfs::Stdfs on twin tmpfs directories, results and std::fs-observed trees equal; plus every program of length 4 (quick) / 5 (thorough) over {open append x2 handles, open write, write x2, flush, drop x2, read} on one file with a tree observation after every step (buffering inside the wrapper would show). (c) the C01 random histories (with persistent write/append handles) executed the three Memfs ways. Non-trivial = call whose result is not an error and not 'false' on at least one path (a mis-routed arm would differ); distinct by (scenario prefix, call).");
+    c.set_rule("(a) matrix: from a fixed mixed scenario (dirs, files with different modes/owners/bytes, link to file, link to dir, dangling link, cwd below root) every call form of the finite alphabet (every trait method incl. builder variants, builders executed after a cwd change, and handles) on every path of the scenario (absolute and cwd-relative; ordered pairs for copy/move/symlink) is executed on a plain Memfs, through Vfs::Memfs(..) and through Memfs::upcast(): identical result (value / error kind) and identical dump-derived tree after every call; every Entry accessor (path, alt, rel, *_buf, file_name, follow(true/false/twice), following, is_*, mode, upcast, clone) of the inner MemfsEntry vs the VfsEntry. (b) the same matrix on the real-filesystem backend: the Stdfs unit struct (trait impl) vs Vfs::Stdfs vs the associated functions Stdfs::<name> (through a purely delegating adapter) on triplet tmpfs directories, results and std::fs-observed trees equal, builders also split into creation and exec with resolvable and unresolvable arguments (the stage of a refusal is compared); plus every program of length 4 (quick) / 5 (thorough) over {open append x2 handles, open write, write x2, flush, drop x2, read} on one file with a tree observation after every step (buffering inside the wrapper would show). (c) the C01 random histories (with persistent write/append handles) executed the three Memfs ways. Non-trivial = call whose result is not an error and not 'false' on at least one path (a mis-routed arm would differ); distinct by (scenario prefix, call).");
     c.assume("Stdfs twin runs use absolute paths inside a sandbox (set_cwd excluded: process-global)");
     let base = scenario();
     let paths = ["/d/gw", "/d/gx", "/", "/d", "/d/f", "/d/sub", "/d/sub/g", "/exe", "/lf", "/ld", "/dang", "/nope", "f", "sub/g", "..", "../lf", "/d/new", "/new/deep"];
@@ -437,6 +459,15 @@ pub fn run(c: &Ctx) {
         for b in spaths.iter().take(8) {
             twin.extend(two_path_ops(a, b, false));
         }
+    }
+    // builders split into creation and exec (the cwd 'change' in between is to the cwd itself: process-global),
+    // with arguments that resolve and arguments that do not: the stage at which the refusal comes is compared too
+    for p in ["@/d/f", "@/d", "@/ld", "@/nope", "", "~x/y"] {
+        let late = |o: Op| Op::Late(Box::new(o), ".".to_string());
+        twin.push(late(Op::ChmodB(p.into(), ChmodOpt { sel: ChmodSel::All(0o700), recursive: false, follow: false })));
+        twin.push(late(Op::ChownB(p.into(), ChownOpt { uid: Some(5), gid: Some(7), recursive: true, follow: false })));
+        twin.push(late(Op::CopyB(p.into(), "@/copied".into(), CopyOpt { mode: CopyMode::None, follow: false })));
+        twin.push(late(Op::CopyB("@/exe".into(), if p.starts_with('@') { format!("{}-c", p) } else { p.to_string() }, CopyOpt { mode: CopyMode::All(0o640), follow: false })));
     }
     par_for(twin.len() as u64, 8, |i| {
         let op = &twin[i as usize];
